@@ -293,6 +293,16 @@ class V:
     def cover(self, name: str) -> None:
         self.ctx.cover('%s#%s' % (self.hdef.id, name))
 
+    def expect_covers(self, *names: str) -> None:
+        """Declare covers up front (first statement of a harness).  `v.cover(n)` registers `n` only when the statement is
+        executed; a cover behind a harness-level `if` whose branch is pruned as infeasible (or is never taken because the
+        outcome no longer occurs) would otherwise vanish silently.  A declared name that no path reaches is reported as
+        'cover never reached'."""
+        ex = getattr(self.ctx, 'ex', None)
+        if ex is not None and hasattr(ex, 'covers'):
+            for n in names:
+                ex.covers.setdefault('%s#%s' % (self.hdef.id, n), 0)
+
     def cut(self) -> None:
         self.ctx.cut()
 
